@@ -443,8 +443,8 @@ def setup_process():
     if _STATE["ready"]:
         return
     import warnings
-    warnings.simplefilter("ignore")   # the library warns (OperationNotFoundWarning, ...) while building / unrolling; irrelevant here
     L = lib()
+    warnings.simplefilter("ignore")   # after the library import (it installs its own filter): OperationNotFoundWarning etc. while unrolling are irrelevant here
     with quiet_fds():
         L["PlatformManager"].openql_platform()          # the library's own platform singleton (real OpenQL)
     outdir = os.path.join(BUILD_DIR, "w%d" % os.getpid())
